@@ -169,6 +169,44 @@ pub fn c20(opts: &Opts, out: &mut Out) {
         }
         let _ = RistrettoPoint::default();
     }
+    // witnesses assembled through the public fields, which the prover accepts: openings with fewer blinding factors
+    // than the statement's degree, and ragged ones (the temporary buffers sized from the witness must still be wiped)
+    for (t, lens) in [(2usize, vec![1usize, 2]), (3, vec![1, 3]), (2, vec![2, 1]), (4, vec![1, 1, 4, 2])] {
+        use tari_bulletproofs_plus::range_statement::RangeStatement;
+        let m = lens.len();
+        let n = 8usize;
+        let pr = rrun::params(n, m, t);
+        let vals: Vec<u64> = (0..m).map(|j| 5 + j as u64).collect();
+        let rs: Vec<Vec<Scalar>> = lens.iter().map(|l| (0..*l).map(|_| Scalar::random(&mut rng)).collect()).collect();
+        let Ok(cs) = vals.iter().zip(rs.iter()).map(|(v, r)| pr.pc_gens().commit(&Scalar::from(*v), r)).collect::<Result<Vec<RistrettoPoint>, _>>() else { continue };
+        let Ok(stmt) = RangeStatement::init(pr, cs, vec![None; m], None) else { continue };
+        let wit = RangeWitness { openings: vals.iter().zip(rs.iter()).map(|(v, r)| CommitmentOpening::new(*v, r.clone())).collect(), extension_degree: rrun::deg(t) };
+        let key = format!("hand-assembled witness n={} t={} blinding counts {:?}", n, t, lens);
+        alloc::clear();
+        for r in &rs {
+            for s in r {
+                alloc::register(s.as_bytes(), 0);
+            }
+        }
+        let mut tr = merlin::Transcript::new(b"verif-harness");
+        let mut prng = chacha(6, 6);
+        alloc::arm();
+        let proof = rrun::Proof::prove_with_rng(&mut tr, &stmt, &wit, &mut prng);
+        let (hits, freed) = alloc::disarm();
+        report(out, "prove", &key, &hits, freed, &mut total_freed);
+        let _ = proof;
+        alloc::clear();
+        for r in &rs {
+            for s in r {
+                alloc::register(s.as_bytes(), 0);
+            }
+        }
+        alloc::arm();
+        drop(wit);
+        let (hits, freed) = alloc::disarm();
+        report(out, "drop:witness", &key, &hits, freed, &mut total_freed);
+        classes.insert((n, m, t, false));
+    }
     out.stat("blocks_released_while_armed", total_freed);
     out.stat("distinct_classes", classes.len() * 8);
     out.case("operations scanned: prove (seeded/unseeded), verify in 3 modes, drop of returned masks, witness (+clone), opening (+clone), mask, failing witness constructor; raw bytes of a statement after drop_in_place; secrets: every blinding scalar, seed, recovered mask (32 bytes), 64-bit values with the top bit set (8 bytes)".into());
